@@ -46,8 +46,11 @@ PROFILES = {
     # ratio is no documented input), which a union of a net with and a net without the columns would violate
     "small": netgen.profile(dcline=False, oos=0.05, open_prob=0.25, bus_kinds=_BK, nb_max=7, nb_level=(1, 4), leakage=False),
 }
+# select_subnet: three voltage levels (the only place for a 3W transformer and its switches) in about half of the cases
+PROFILES["subnet"] = netgen.profile(dcline=False, oos=0.05, open_prob=0.25, bus_kinds=_BK, nb_max=8, nb_level=(1, 4), leakage=False,
+                                    level_sets=netgen.LEVEL_SETS + [ls for ls in netgen.LEVEL_SETS if len(ls) == 3] * 3)
 KIND_PROFILE = {"ward_internal": "ward", "xward_internal": "xward", "fuse_buses": "fuse", "drop_out_of_service": "drop",
-                "drop_inactive": "drop", "merge_nets": "small", "select_subnet": "small"}
+                "drop_inactive": "drop", "merge_nets": "small", "select_subnet": "subnet"}
 
 
 def _custom_element_indices(recipe, off, step):
@@ -119,7 +122,7 @@ def _recipe(draw, kind):
             i, j = pairs[draw(st.integers(0, len(pairs) - 1))]
             el.append({"t": "switch", "et": "b", "bus": i, "element": j, "closed": True})
     if any(e["t"] == "trafo3w" for e in el) and not any(e["t"] == "switch" and e["et"] == "t3" for e in el) \
-            and draw(st.integers(0, 2)) == 0:
+            and draw(st.integers(0, 1 if kind == "select_subnet" else 2)) == 0:
         t3 = [e for e in el if e["t"] == "trafo3w"][0]
         el.append({"t": "switch", "et": "t3", "bus": t3[draw(st.sampled_from(["hv_bus", "mv_bus", "lv_bus"]))], "element": 0,
                    "closed": draw(st.booleans())})
